@@ -82,6 +82,9 @@ struct Shared {
     gates: Mutex<HashMap<u64, std::sync::mpsc::Sender<Cmd>>>,
     events: Mutex<Option<UnboundedSender<SrvEvent>>>,
     mw_calls: AtomicU64,
+    /// armed by a `hook` step: what the `on_error` hook does when the next Saturation is reported
+    /// (it runs on the reader, between "no slot free" and the rest of the refusal)
+    hook_plan: Mutex<Option<Vec<(u64, Cmd)>>>,
 }
 
 impl Shared {
@@ -174,7 +177,7 @@ struct Srv {
 }
 
 fn build_server(cap: Option<usize>, mw: bool, ocap: Option<usize>, dflt: bool) -> (WebSocketServer, Arc<Shared>) {
-    let sh = Arc::new(Shared { gauge: AtomicI64::new(0), max_gauge: AtomicI64::new(0), gates: Mutex::new(HashMap::new()), events: Mutex::new(None), mw_calls: AtomicU64::new(0) });
+    let sh = Arc::new(Shared { gauge: AtomicI64::new(0), max_gauge: AtomicI64::new(0), gates: Mutex::new(HashMap::new()), events: Mutex::new(None), mw_calls: AtomicU64::new(0), hook_plan: Mutex::new(None) });
     let sh2 = sh.clone();
     let mut server = WebSocketServer::new(make_router(&sh, mw));
     if !dflt {
@@ -182,7 +185,26 @@ fn build_server(cap: Option<usize>, mw: bool, ocap: Option<usize>, dflt: bool) -
         server = server.with_offreader_limit(cap.unwrap_or(0));
     }
     let mut server = server.on_error(move |e| match e {
-        ConnectionError::Saturation { .. } => sh2.emit(SrvEvent::Saturation),
+        ConnectionError::Saturation { .. } => {
+            let plan = sh2.hook_plan.lock().unwrap().take();
+            if let Some(plan) = plan {
+                // release parked handlers from inside the refusal and wait until they have left
+                let target = sh2.gauge.load(Ordering::SeqCst) - plan.len() as i64;
+                for (id, cmd) in plan {
+                    let gate = sh2.gates.lock().unwrap().remove(&id);
+                    if let Some(g) = gate {
+                        let _ = g.send(cmd);
+                    }
+                }
+                let t0 = Instant::now();
+                while sh2.gauge.load(Ordering::SeqCst) > target && t0.elapsed() < Duration::from_secs(10) {
+                    std::thread::sleep(Duration::from_millis(1));
+                }
+                // the handlers have returned; give their blocking closures time to run to the end
+                std::thread::sleep(Duration::from_millis(40));
+            }
+            sh2.emit(SrvEvent::Saturation)
+        }
         ConnectionError::HandlerPanic { .. } => sh2.emit(SrvEvent::Panic),
         _ => {}
     });
@@ -227,6 +249,12 @@ enum Op {
     Cap { cap: Option<usize>, mw: bool, ocap: Option<usize>, dflt: bool },
     /// the client drops the connection (handlers stay parked) and opens a new one to the same server
     Reconnect,
+    /// `begin`: the arrival that follows is refused and the exits that follow it happen *inside* that
+    /// refusal (the server's `on_error` hook releases the handlers and waits for them)
+    Hook { begin: bool },
+    /// rounds of: fill the cap, then release everything while a burst of further requests is on its way;
+    /// ends with nothing running (no per-request prediction: only the direct oracles apply)
+    Race { rounds: usize, extra: usize },
     /// the arrivals between `begin` and `end` are written to the socket in one piece and only then read
     Burst { begin: bool },
     Arrive { id: u64, blocking: bool, notify: bool, ec: u32 },
@@ -239,6 +267,8 @@ fn op_line(idx: &str, op: &Op) -> String {
         Op::Cap { cap, mw, ocap: None, .. } => format!("cap {} {} {}", idx, cap.map(|c| c.to_string()).unwrap_or("-".into()), *mw as u8),
         Op::Cap { cap, mw, ocap: Some(o), .. } => format!("cap {} {} {} {}", idx, cap.map(|c| c.to_string()).unwrap_or("-".into()), *mw as u8, o),
         Op::Reconnect => format!("reconnect {}", idx),
+        Op::Hook { begin } => format!("hook {} {}", idx, if *begin { "begin" } else { "end" }),
+        Op::Race { rounds, extra } => format!("race {} {} {}", idx, rounds, extra),
         Op::Burst { begin } => format!("burst {} {}", idx, if *begin { "begin" } else { "end" }),
         Op::Arrive { id, blocking, notify, ec } => format!("arrive {} {} {} {} {}", idx, id, if *blocking { "blocking" } else { "inline" }, *notify as u8, ec),
         Op::Exit { id, cmd } => format!("exit {} {} {}", idx, id, match cmd { Cmd::Ret => "ret".to_string(), Cmd::Err(c) => format!("err {}", c), Cmd::Panic(0) => "panic".to_string(), Cmd::Panic(k) => format!("panic {}", k) }),
@@ -252,6 +282,9 @@ fn parse_op(line: &str) -> Option<(String, Op)> {
         ["cap", idx, c, mw] => Some((idx.to_string(), Op::Cap { cap: if *c == "-" { None } else { Some(c.parse().ok()?) }, mw: *mw == "1", ocap: None, dflt: false })),
         ["cap", idx, c, mw, o] => Some((idx.to_string(), Op::Cap { cap: if *c == "-" { None } else { Some(c.parse().ok()?) }, mw: *mw == "1", ocap: Some(o.parse().ok()?), dflt: false })),
         ["reconnect", idx] => Some((idx.to_string(), Op::Reconnect)),
+        ["hook", idx, "begin"] => Some((idx.to_string(), Op::Hook { begin: true })),
+        ["hook", idx, "end"] => Some((idx.to_string(), Op::Hook { begin: false })),
+        ["race", idx, r, e] => Some((idx.to_string(), Op::Race { rounds: r.parse().ok()?, extra: e.parse().ok()? })),
         ["burst", idx, "begin"] => Some((idx.to_string(), Op::Burst { begin: true })),
         ["burst", idx, "end"] => Some((idx.to_string(), Op::Burst { begin: false })),
         ["arrive", idx, id, route, n, ec] => Some((idx.to_string(), Op::Arrive { id: id.parse().ok()?, blocking: *route == "blocking", notify: *n == "1", ec: ec.parse().ok()? })),
@@ -528,6 +561,197 @@ async fn do_burst(c: &mut Conn, items: &[(String, u64, bool, bool, u32)]) -> (Ve
         }
     }
     (out, false)
+}
+
+/// A refusal during which handlers exit: `arrive` must be refused; the server's Saturation hook releases
+/// `exits` and waits for them before the reader goes on.  Observations are reported in the order the
+/// events happened: the failed acquisition first, the exits after it.
+async fn do_hooked(c: &mut Conn, arrive: &(String, u64, bool), exits: &[(String, u64, Cmd)], retries: &mut u64) -> Vec<OpResult> {
+    let (aidx, aid, anotify) = arrive;
+    let mut out = Vec::new();
+    c.drain_events();
+    let parked_before = c.parked.len() as i64;
+    *c.sh.hook_plan.lock().unwrap() = Some(exits.iter().map(|(_, id, cmd)| (*id, *cmd)).collect());
+    if *anotify {
+        c.notifies.insert(*aid);
+    }
+    let notify_of: BTreeMap<u64, bool> = exits.iter().map(|(_, id, _)| (*id, c.parked.get(id).copied().unwrap_or(false))).collect();
+    if let Err(e) = c.send(&request_frame(*aid, true, *anotify, 0)).await {
+        out.push(OpResult { obs: format!("{aidx} closed ; running {}", c.gauge()), fails: vec![("offreader.connection".into(), format!("{aidx}: {e}"))], broken: true });
+        return out;
+    }
+    let deadline = Instant::now() + WATCHDOG;
+    let mut answer: Option<u32> = None;
+    let mut admitted = false;
+    let mut sat = false;
+    let mut exited: BTreeSet<u64> = BTreeSet::new();
+    let mut resps: BTreeMap<u64, u32> = BTreeMap::new();
+    let done = |answer: &Option<u32>, sat: bool, exited: &BTreeSet<u64>, resps: &BTreeMap<u64, u32>| {
+        (if *anotify { sat } else { answer.is_some() }) && exits.iter().all(|(_, id, _)| exited.contains(id) && (notify_of[id] || resps.contains_key(id)))
+    };
+    let mut fails: Vec<(String, String)> = Vec::new();
+    let mut broken = false;
+    while !admitted && !done(&answer, sat, &exited, &resps) {
+        match c.next(deadline).await {
+            Seen::Event(SrvEvent::Entered(k)) if k == *aid => admitted = true,
+            Seen::Event(SrvEvent::Exited(k)) => {
+                exited.insert(k);
+            }
+            Seen::Event(SrvEvent::Saturation) => sat = true,
+            Seen::Event(_) => {}
+            Seen::Frame(f) if f.h.notify == 0 && f.h.id == *aid => answer = Some(f.h.ec),
+            Seen::Frame(f) if f.h.notify == 0 && notify_of.get(&f.h.id) == Some(&false) => {
+                resps.insert(f.h.id, f.h.ec);
+            }
+            Seen::Frame(f) => c.stray.push(f),
+            Seen::Timeout => {
+                fails.push(("offreader.hooked.no_effect".into(), format!("{aidx}: a request at the cap whose refusal releases {} handler(s): answered={:?} report={} exited={:?} answers={:?} within {:?}", exits.len(), answer, sat, exited, resps, WATCHDOG)));
+                broken = true;
+                break;
+            }
+            Seen::Closed(e) => {
+                fails.push(("offreader.connection".into(), format!("{aidx}: {e}")));
+                broken = true;
+                break;
+            }
+        }
+    }
+    *c.sh.hook_plan.lock().unwrap() = None;
+    if admitted {
+        // not at the cap after all (the model will disagree): play the exits one by one
+        c.parked.insert(*aid, *anotify);
+        out.push(OpResult { obs: format!("{aidx} admitted {aid} ; running {}", c.gauge()), fails, broken });
+        for (idx, id, cmd) in exits {
+            out.push(do_exit(c, idx, *id, *cmd).await);
+        }
+        let _ = retries;
+        return out;
+    }
+    let what = match (anotify, answer) {
+        (true, _) => "dropped".to_string(),
+        (false, Some(ec)) => format!("resp {} {}", aid, ec),
+        (false, None) => "timeout".to_string(),
+    };
+    out.push(OpResult { obs: format!("{aidx} {what} ; running {parked_before}"), fails, broken });
+    let mut running = parked_before;
+    for (idx, id, cmd) in exits {
+        let mut fails = Vec::new();
+        c.parked.remove(id);
+        let what = if !exited.contains(id) {
+            "timeout".to_string()
+        } else {
+            running -= 1;
+            match resps.get(id) {
+                Some(ec) => {
+                    let want = match cmd { Cmd::Ret => 0, Cmd::Err(c) => *c, Cmd::Panic(_) => INTERNAL_ERROR };
+                    if *ec != want {
+                        fails.push(("offreader.exit.code".to_string(), format!("{idx}: handler {id} ended by {:?} inside a refusal; its caller got ec {} (want {})", cmd, ec, want)));
+                    }
+                    c.answered.insert(*id, *ec);
+                    format!("resp {} {}", id, ec)
+                }
+                None => "none".to_string(),
+            }
+        };
+        out.push(OpResult { obs: format!("{idx} {what} ; running {running}"), fails, broken: false });
+    }
+    out
+}
+
+/// Statistical variant: `rounds` times fill the cap, then write `extra` further requests in one piece and
+/// release every parked handler at the same moment.  Whatever the interleaving, each request of the burst
+/// must either start a handler or be refused, never more than `cap` may run, and in the end every slot
+/// must be usable again (checked here with the usual grace, and by the script's next steps).
+async fn do_race(c: &mut Conn, idx: &str, rounds: usize, extra: usize, next_id: &mut u64, retries: &mut u64) -> (Vec<(String, String)>, bool) {
+    let mut fails: Vec<(String, String)> = Vec::new();
+    let cap = c.cap.unwrap_or(4);
+    for round in 0..rounds {
+        // fill the cap (handlers left over from the previous round's burst count)
+        while c.parked.len() < cap {
+            *next_id += 1;
+            let id = *next_id;
+            let r = do_arrive(c, idx, id, true, false, 0, retries).await;
+            fails.extend(r.fails.into_iter().map(|(s, d)| (s, format!("race round {round}: {d}"))));
+            if r.broken || !c.parked.contains_key(&id) {
+                if !r.broken {
+                    fails.push(("offreader.slot_leaked".into(), format!("{idx}: race round {round}: request {id} was not admitted although only {} of {} slots are taken", c.parked.len(), cap)));
+                }
+                return (fails, true);
+            }
+        }
+        c.drain_events();
+        let ids: Vec<u64> = (0..extra).map(|_| { *next_id += 1; *next_id }).collect();
+        for id in &ids {
+            if tokio::time::timeout(WATCHDOG, c.ws.feed(WsMsg::Binary(request_frame(*id, true, false, 0).to_vec()))).await.map(|r| r.is_err()).unwrap_or(true) {
+                fails.push(("offreader.connection".into(), format!("{idx}: race round {round}: write failed")));
+                return (fails, true);
+            }
+        }
+        // release everything that is parked while the burst is on its way
+        let gates: Vec<(u64, std::sync::mpsc::Sender<Cmd>)> = c.sh.gates.lock().unwrap().drain().collect();
+        let mut leaving: BTreeSet<u64> = gates.iter().map(|g| g.0).collect();
+        let flush = c.ws.flush();
+        let release = async {
+            if round % 2 == 1 {
+                tokio::task::yield_now().await;
+            }
+            for (_, g) in &gates {
+                let _ = g.send(Cmd::Ret);
+            }
+        };
+        let (fr, _) = tokio::join!(tokio::time::timeout(WATCHDOG, flush), release);
+        if fr.map(|r| r.is_err()).unwrap_or(true) {
+            fails.push(("offreader.connection".into(), format!("{idx}: race round {round}: flush failed")));
+            return (fails, true);
+        }
+        let mut want_answers: BTreeSet<u64> = leaving.iter().filter(|id| c.parked.get(id) == Some(&false)).cloned().collect();
+        for id in &leaving {
+            c.parked.remove(id);
+        }
+        let mut unresolved: BTreeSet<u64> = ids.iter().cloned().collect();
+        let deadline = Instant::now() + WATCHDOG;
+        while !(unresolved.is_empty() && leaving.is_empty() && want_answers.is_empty()) {
+            match c.next(deadline).await {
+                Seen::Event(SrvEvent::Entered(k)) if unresolved.remove(&k) => {
+                    c.parked.insert(k, false);
+                }
+                Seen::Event(SrvEvent::Exited(k)) => {
+                    leaving.remove(&k);
+                }
+                Seen::Event(_) => {}
+                Seen::Frame(f) if f.h.notify == 0 && unresolved.contains(&f.h.id) => {
+                    unresolved.remove(&f.h.id);
+                    if f.h.ec != RESOURCE_EXHAUSTED {
+                        fails.push(("offreader.saturation.reply".into(), format!("{idx}: race round {round}: request {} answered with ec {}", f.h.id, f.h.ec)));
+                    }
+                }
+                Seen::Frame(f) if f.h.notify == 0 && want_answers.remove(&f.h.id) => {
+                    if f.h.ec != 0 {
+                        fails.push(("offreader.exit.code".into(), format!("{idx}: race round {round}: released handler {} answered ec {}", f.h.id, f.h.ec)));
+                    }
+                }
+                Seen::Frame(f) => c.stray.push(f),
+                Seen::Timeout => {
+                    fails.push(("offreader.race.unresolved".into(), format!("{idx}: race round {round} (cap {cap}, burst of {extra}): requests {:?} neither started nor were refused, handlers {:?} did not leave, answers missing for {:?} within {:?}", unresolved, leaving, want_answers, WATCHDOG)));
+                    return (fails, true);
+                }
+                Seen::Closed(e) => {
+                    fails.push(("offreader.connection".into(), format!("{idx}: race round {round}: {e}")));
+                    return (fails, true);
+                }
+            }
+        }
+    }
+    // leave nothing running
+    let left: Vec<u64> = c.parked.keys().cloned().collect();
+    for id in left {
+        let r = do_exit(c, idx, id, Cmd::Ret).await;
+        fails.extend(r.fails);
+        if r.broken {
+            return (fails, true);
+        }
+    }
+    (fails, false)
 }
 
 async fn do_exit(c: &mut Conn, idx: &str, id: u64, cmd: Cmd) -> OpResult {
@@ -820,6 +1044,35 @@ fn gen_scripts(r: &mut Rng, thorough: bool) -> Vec<Vec<Op>> {
             scripts.push(g.ops);
         }
     }
+    // handlers exit *inside* a refusal (the Saturation hook releases them and waits), then every slot must
+    // be usable; and races between a burst at the cap and the release of everything
+    for round in 0..(if thorough { 6 } else { 2 }) {
+        for cap in [1usize, 2, 3, 4] {
+            let mut g = Gen::new(Some(cap), (round + cap) % 2 == 1, nb());
+            for _ in 0..cap {
+                g.arrive(true, r.chance(1, 8), 0);
+            }
+            g.ops.push(Op::Hook { begin: true });
+            g.arrive(true, round % 2 == 1 && r.chance(1, 2), 0);
+            let ids = g.running.clone();
+            let n = if round % 2 == 0 { ids.len() } else { r.range(1, ids.len() as u64) as usize };
+            for id in ids.iter().take(n) {
+                let cmd = pick_cmd(r);
+                g.exit(*id, cmd);
+            }
+            g.ops.push(Op::Hook { begin: false });
+            // the freed slots must all be usable
+            for _ in 0..n {
+                g.arrive(true, false, 0);
+            }
+            g.arrive(true, false, 0);
+            g.arrive(false, false, 0);
+            g.exit_all(r);
+            g.ops.push(Op::Race { rounds: if thorough { 40 } else { 12 }, extra: cap + 2 });
+            g.epilogue(r);
+            scripts.push(g.ops);
+        }
+    }
     // pressure: bursts written in one piece against a one-slot outbound queue
     for round in 0..(if thorough { 8 } else { 2 }) {
         for cap in 1..=3usize {
@@ -930,6 +1183,68 @@ async fn run_script(out: &mut Out, servers: &mut HashMap<SrvKey, Srv>, sno: usiz
             }
             Op::Burst { begin: false } => {
                 k += 1;
+                continue;
+            }
+            Op::Hook { begin: true } => {
+                out.config(&lines[k]);
+                out.count("offreader.refusals_with_exits_inside(on_error_hook)");
+                let mut e = k + 1;
+                let mut arrive = None;
+                let mut exits = Vec::new();
+                let mut idxs = Vec::new();
+                while e < ops.len() {
+                    match &ops[e].1 {
+                        Op::Arrive { id, notify, blocking: true, .. } if arrive.is_none() => {
+                            arrive = Some((ops[e].0.clone(), *id, *notify));
+                            idxs.push(e);
+                        }
+                        Op::Exit { id, cmd } if arrive.is_some() => {
+                            exits.push((ops[e].0.clone(), *id, *cmd));
+                            idxs.push(e);
+                        }
+                        _ => break,
+                    }
+                    e += 1;
+                }
+                if let Some(a) = arrive {
+                    in_burst = true;
+                    let rs = do_hooked(&mut c, &a, &exits, retries).await;
+                    for (i, r) in idxs.into_iter().zip(rs) {
+                        results.push((i, r));
+                    }
+                }
+                k = e;
+                if k < ops.len() && matches!(ops[k].1, Op::Hook { begin: false }) {
+                    end_line = Some(k);
+                    k += 1;
+                }
+            }
+            Op::Hook { begin: false } => {
+                k += 1;
+                continue;
+            }
+            Op::Race { rounds, extra } => {
+                out.config(&lines[k]);
+                out.count("offreader.races");
+                out.add("offreader.race_rounds", *rounds as u64);
+                k += 1;
+                let mut nid = 900_000_000 + (sno as u64) * 100_000;
+                let before = c.sh.mw_calls.load(Ordering::SeqCst);
+                let (fails, broken) = do_race(&mut c, &ops[k - 1].0, *rounds, *extra, &mut nid, retries).await;
+                // the race's own requests are not op lines: keep the middleware count comparable
+                dispatched += c.sh.mw_calls.load(Ordering::SeqCst) - before;
+                if let Some(cc) = cap {
+                    let mx = c.sh.max_gauge.load(Ordering::SeqCst);
+                    if mx > (cc + orphan_base) as i64 {
+                        out.oracle_fail("offreader.cap_exceeded", &format!("{}: {} handlers were running at once during a race on a connection with cap {}", ops[k - 1].0, mx, cc), &lines[..k].to_vec());
+                    }
+                }
+                for (sig, detail) in &fails {
+                    out.oracle_fail(sig, detail, &lines[..k].to_vec());
+                }
+                if broken {
+                    ok = false;
+                }
                 continue;
             }
             Op::Reconnect => {
@@ -1056,7 +1371,7 @@ fn main() {
     let args = Args::parse();
     quiet_panics();
     let mut out = Out::new(&args.out);
-    out.rule = "event scripts on one raw WebSocket connection per script against a real WebSocketServer: caps 1..16 and unlimited, routers with and without middleware, the four `_blocking` registrars and a hand-written erased handler with execution() = OffReader (by request id), arrivals up to 4x cap of blocking requests (1 in 5 a notify) interleaved with inline requests (some failing) and exits of random running handlers (return / error code / panic with 7 payload kinds: literal &str, formatted String, None.unwrap(), Err.expect(), index out of bounds, panic_any(u32), assert_eq!), every release order for caps 1..3 (thorough: with every assignment of exit kinds), pressure scripts (outbound queue of one slot, server on a current-thread runtime, caps 1..3): bursts of cap parked + 3..12 further blocking requests + inline requests with 48 KiB answers written to the socket in one piece and read only afterwards; a default-configured server (no with_offreader_limit); reconnect scripts (the client drops the connection while handlers are parked, opens a new one: its own cap-many slots, left-over handlers end later); each script ends by releasing everything, admitting cap-many further requests, one refusal, and releasing again. Distinct by op line; non-trivial = an exit, a saturation reply/drop, or any event while handlers are parked".into();
+    out.rule = "event scripts on one raw WebSocket connection per script against a real WebSocketServer: caps 1..16 and unlimited, routers with and without middleware, the four `_blocking` registrars and a hand-written erased handler with execution() = OffReader (by request id), arrivals up to 4x cap of blocking requests (1 in 5 a notify) interleaved with inline requests (some failing) and exits of random running handlers (return / error code / panic with 7 payload kinds: literal &str, formatted String, None.unwrap(), Err.expect(), index out of bounds, panic_any(u32), assert_eq!), every release order for caps 1..3 (thorough: with every assignment of exit kinds), pressure scripts (outbound queue of one slot, server on a current-thread runtime, caps 1..3): bursts of cap parked + 3..12 further blocking requests + inline requests with 48 KiB answers written to the socket in one piece and read only afterwards; a default-configured server (no with_offreader_limit); reconnect scripts (the client drops the connection while handlers are parked, opens a new one: its own cap-many slots, left-over handlers end later); hook scripts (the server's on_error Saturation hook releases parked handlers from inside a refusal and waits until they have left; the freed slots must then all be usable) and races (12-40 rounds of: fill the cap, write a burst of cap+2 further requests and release everything at the same moment); each script ends by releasing everything, admitting cap-many further requests, one refusal, and releasing again. Distinct by op line; non-trivial = an exit, a saturation reply/drop, or any event while handlers are parked".into();
     let rt = tokio::runtime::Builder::new_multi_thread().worker_threads(4).max_blocking_threads(256).enable_all().build().unwrap();
     let mut rng = Rng::new(args.seed);
     let scripts: Vec<Vec<(String, Op)>> = match args.replay_ops() {
